@@ -28,7 +28,7 @@ def cases(draw, nums, pmax=5, kmax=5):
     outside = draw(gen.outside_params(c["U"]))
     seqtype = draw(st.sampled_from(["tuple", "list"]))
     return {"curve": c, "outside": outside, "seqtype": seqtype,
-            "intparam": draw(st.booleans())}
+            "intparam": draw(st.booleans()), "twin_first": draw(st.integers(0, 2)) == 0}
 
 
 def tol_of(st_):
@@ -45,6 +45,12 @@ def check(case, out):
     num = c["num"]
     exact = lib.is_exact(num)
     ref = lib.case_state(c)
+    if exact and case.get("twin_first"):
+        # history: evaluate a float twin of the same knot vector first (a value-keyed cache would leak its floats)
+        twin = lib.build_curve(dict(c, num="float"))
+        twin(float(ref.U[0]))
+        twin([float(ref.U[0]), float(ref.U[-1])])
+        out.cls("float-twin-first")
     curve = lib.build_curve(c)
     U = ref.U
     bk = oracle.breaks(U)
